@@ -520,19 +520,33 @@ theorem spans_var_lenOK (b64 : Bytes → Option Bytes) (raws dsts : List String)
     · simp at hx
     · rw [← hl]; exact canon_lenOK b64 raws g v (hcanon g hg (Or.inl hv)) hv
 
-/-- **parsing the rendering of a canonical record replays the record**: for a `Parse()` that passes the
-static check against the write table, on the rendering of a value whose fields are canonical -/
-theorem parse_render (b64 : Bytes → Option Bytes) (now : Date) (sty : List SetAct) (ws : List WField) (v : Vals)
+/-- the decode flags of the assignments of a `Parse()` body are the ones `DcOK` admits for the field they decode -/
+def FlagsOK (DcOK : WField → Bool → Prop) (ws : List WField) (ps : List PStmt) : Prop :=
+  ∀ dst lo hi k dc, PStmt.assign dst lo hi k dc ∈ ps → ∀ f ∈ ws, f.src = dst → DcOK f dc
+
+/-- **parsing a carrier of the rendering of a canonical record replays the record** (general form): `R` is any
+byte string of the rendering's length in which the span of every field holds bytes that the reader's slice
+decoder `dec` (applied or not, as the statement's flag says and `DcOK` admits) turns into the field's rendering.
+ASCII: `R` is the rendering itself and `dec = id`; EBCDIC record 52: `R` is the transliterated text followed
+by the raw image bytes and `dec` the code-page decoder. -/
+theorem parse_render_gen (b64 : Bytes → Option Bytes) (now : Date) (sty : List SetAct) (ws : List WField) (v : Vals)
     (raws dsts : List String) (hwf : AllWf ws = true) (ht : TypeSet v)
-    (hcanon : ∀ f ∈ ws, Relevant dsts f → CanonField b64 raws f v) :
+    (hcanon : ∀ f ∈ ws, Relevant dsts f → CanonField b64 raws f v)
+    (dec : Bytes → Bytes) (R : Bytes) (DcOK : WField → Bool → Prop)
+    (hRlen : R.length = (render b64 ws true v).length)
+    (hRslice : ∀ (o : SymOff) (f : WField) (pre post : Bytes), (o, f) ∈ spans ws ⟨0, []⟩ →
+      render b64 ws true v = pre ++ renderField b64 f v ++ post → pre.length = o.val v →
+      ∃ x, slice? R (pre.length : Int) ((pre.length + (renderField b64 f v).length : Nat) : Int) = some x ∧
+        ∀ dc, DcOK f dc → (if dc = true then dec x else x) = renderField b64 f v) :
     ∀ (ps : List PStmt) (σ : PSt) (acc : Vals),
       (∀ d ∈ assignDsts ps, d ∈ dsts) →
-      (∀ st ∈ ps, usesRunes st = true → runeCount (render b64 ws true v) = (render b64 ws true v).length) →
+      (∀ st ∈ ps, usesRunes st = true → runeCount R = R.length) →
+      FlagsOK DcOK ws ps →
       (∀ d ∈ σ.assigned, acc.s d = v.s d) →
       stmtsOK ws raws ps σ = true →
-      parseStmts id now sty (render b64 ws true v) ps (envOf v σ.binds) acc = .done (replay now sty v ps acc)
-  | [], σ, acc, _, _, _, _ => by simp [parseStmts, replay]
-  | st :: rest, σ, acc, hds, hr, hag, hok => by
+      parseStmts dec now sty R ps (envOf v σ.binds) acc = .done (replay now sty v ps acc)
+  | [], σ, acc, _, _, _, _, _ => by simp [parseStmts, replay]
+  | st :: rest, σ, acc, hds, hr, hfl, hag, hok => by
     have hsym : ∀ g ∈ ws, LenIsSym b64 g v := lenIsSym_all b64 raws dsts ws v hcanon
     have hE := endOff_val b64 v ht ws ⟨0, []⟩ hwf hsym
     have hE0 : (⟨0, []⟩ : SymOff).val v = 0 := by simp [SymOff.val, sumW]
@@ -552,15 +566,18 @@ theorem parse_render (b64 : Bytes → Option Bytes) (now : Date) (sty : List Set
         split
         · exact hd
         · exact List.mem_cons_of_mem _ hd
-      have ih := fun acc' hag' => parse_render b64 now sty ws v raws dsts hwf ht hcanon rest σ' acc' hds'
-        (fun x hx => hr x (by simp [hx])) hag' hok
+      have hfl' : FlagsOK DcOK ws rest := by
+        intro dst lo hi k dc hm f hf hs
+        exact hfl dst lo hi k dc (List.mem_cons_of_mem _ hm) f hf hs
+      have ih := fun acc' hag' => parse_render_gen b64 now sty ws v raws dsts hwf ht hcanon dec R DcOK hRlen hRslice rest σ' acc' hds'
+        (fun x hx => hr x (by simp [hx])) hfl' hag' hok
       cases st with
       | guardRunes ne n =>
         have hrn := hr (.guardRunes ne n) (by simp) rfl
         simp only [stmtStep] at hstep
         · obtain ⟨hc, hstep⟩ := ite_some_eq hstep
           subst hstep
-          simp only [parseStmts, hrn]
+          simp only [parseStmts, hrn, hRlen]
           have : ¬ (if ne = true then (render b64 ws true v).length ≠ n else (render b64 ws true v).length < n) := by
             cases ne with
             | true =>
@@ -577,7 +594,7 @@ theorem parse_render (b64 : Bytes → Option Bytes) (now : Date) (sty : List Set
         simp only [stmtStep] at hstep
         · obtain ⟨hc, hstep⟩ := ite_some_eq hstep
           subst hstep
-          simp only [parseStmts]
+          simp only [parseStmts, hRlen]
           have : ¬ ((render b64 ws true v).length < n) := by omega
           simp only [this, if_false]
           rw [ih acc hag]; simp [replay, replayStmt]
@@ -604,13 +621,13 @@ theorem parse_render (b64 : Bytes → Option Bytes) (now : Date) (sty : List Set
               have hx : (envOf v σ.binds).get var = parseNum (v.s lf) := by rw [envOf_get, hlv]
               have hlen : so.val v ≤ (render b64 ws true v).length := by
                 rw [h1, h3]; simp only [List.length_append]; rw [hE0] at h2; omega
-              have hcnt : (if bytes = true then ((render b64 ws true v).length : Int) else (runeCount (render b64 ws true v) : Int)) =
+              have hcnt : (if bytes = true then (R.length : Int) else (runeCount R : Int)) =
                   ((render b64 ws true v).length : Int) := by
                 cases bytes with
-                | true => rfl
+                | true => simp [hRlen]
                 | false =>
                   have := hr (.guardVar false var le0 off) (by simp) rfl
-                  simp [this]
+                  simp [this, hRlen]
               simp only [parseStmts, hx, hev, hcnt, hle0, Bool.false_eq_true, if_false]
               have : ¬ (parseNum (v.s lf) < 0 ∨ ((render b64 ws true v).length : Int) < (so.val v : Int)) := by
                 have := hlok.1; omega
@@ -670,12 +687,12 @@ theorem parse_render (b64 : Bytes → Option Bytes) (now : Date) (sty : List Set
                 have ehi : hi.eval (envOf v σ.binds) = ((pre.length + (renderField b64 f v).length : Nat) : Int) := by
                   rw [eval_sym v σ.binds hi shi hhi (by rw [hshi]; exact hl2), hshi, h3]
                   rw [hE0] at h2; omega
-                have hsl : slice? (render b64 ws true v) (lo.eval (envOf v σ.binds)) (hi.eval (envOf v σ.binds)) =
-                    some (renderField b64 f v) := by
-                  rw [elo, ehi, h1]; exact slice?_mid pre _ post
+                obtain ⟨x, hslx, hdcx⟩ := hRslice o f pre post hmem h1 (by rw [hE0] at h2; omega)
+                have hsl : slice? R (lo.eval (envOf v σ.binds)) (hi.eval (envOf v σ.binds)) = some x := by
+                  rw [elo, ehi]; exact hslx
                 simp only [parseStmts, hsl]
-                have hd : (if dc = true then id (renderField b64 f v) else renderField b64 f v) = renderField b64 f v := by
-                  cases dc <;> rfl
+                have hd : (if dc = true then dec x else x) = renderField b64 f v :=
+                  hdcx dc (hfl dst lo hi k dc (by simp) f hfw hsrc)
                 rw [hd, ← hsrc, assign_decodes b64 raws now sty f v acc k lo hi dc hwfF hcompat (hcanon f hfw (Or.inr (hsrc ▸ hdst)))]
                 rw [ih]
                 · simp [replay]
@@ -717,5 +734,23 @@ theorem parse_render (b64 : Bytes → Option Bytes) (now : Date) (sty : List Set
             have : σ.assigned = [] := List.isEmpty_iff.1 hc
             rw [this] at hd; cases hd
       | «opaque» => simp [stmtStep] at hstep
+
+
+/-- **parsing the rendering of a canonical record replays the record**: for a `Parse()` that passes the
+static check against the write table, on the rendering of a value whose fields are canonical -/
+theorem parse_render (b64 : Bytes → Option Bytes) (now : Date) (sty : List SetAct) (ws : List WField) (v : Vals)
+    (raws dsts : List String) (hwf : AllWf ws = true) (ht : TypeSet v)
+    (hcanon : ∀ f ∈ ws, Relevant dsts f → CanonField b64 raws f v)
+    (ps : List PStmt) (σ : PSt) (acc : Vals)
+    (hds : ∀ d ∈ assignDsts ps, d ∈ dsts)
+    (hr : ∀ st ∈ ps, usesRunes st = true → runeCount (render b64 ws true v) = (render b64 ws true v).length)
+    (hag : ∀ d ∈ σ.assigned, acc.s d = v.s d) (hok : stmtsOK ws raws ps σ = true) :
+    parseStmts id now sty (render b64 ws true v) ps (envOf v σ.binds) acc = .done (replay now sty v ps acc) := by
+  refine parse_render_gen b64 now sty ws v raws dsts hwf ht hcanon id (render b64 ws true v) (fun _ _ => True) rfl ?_
+    ps σ acc hds hr (fun _ _ _ _ _ _ _ _ _ => trivial) hag hok
+  intro o f pre post _ h1 _
+  refine ⟨renderField b64 f v, ?_, ?_⟩
+  · rw [h1]; exact slice?_mid pre _ post
+  · intro dc _; cases dc <;> rfl
 
 end Icl
